@@ -223,4 +223,19 @@ def rdm (c impl : List String) : Option Verdict := do
            note := if ok then "" else
              "real dial()/done(): autoconfiguration must be read and disabled in Advertise mode only, restored to its previous value by done(), and the socket closed (no file descriptor left open)" }
 
+/-- `sld adv lat hold | opened cleaned maxOpen acRestored status`: one connection is dialled (it takes
+    `lat`), held for `hold`, and the task returns nil.  However long the dial takes: one connection
+    opened, cleaned up once, never two open at a time, autoconf back to its value, `Dial` returns nil. -/
+def sld (c impl : List String) : Option Verdict := do
+  let (_adv, _lat, _hold) ← P.run (do let a ← P.bool; let l ← P.int; let h ← P.int; pure (a, l, h)) c
+  let (o, cl, m, ac, st) ← P.run (do
+    let o ← P.nat; let c ← P.nat; let m ← P.nat; let a ← P.bool; let s ← P.tok; pure (o, c, m, a, s)) impl
+  let ok := o == 1 && cl == 1 && m == 1 && ac && st == "nil"
+  pure { model := "1 1 1 1 nil", oracle := ok, nontrivial := true,
+         note := if cl != o then "a connection that was opened was not cleaned up exactly once"
+           else if m > 1 then "two connections were open at the same time"
+           else if !ac then "IPv6 autoconfiguration was not put back to the value it had before"
+           else if o != 1 then "more than one connection was opened although nothing failed"
+           else if st != "nil" then s!"Dial reported {st}" else "" }
+
 end Driver.Dialer
